@@ -140,6 +140,10 @@ class Node(ModelElement):
     @image_ref.setter
     def image_ref(self, value: str):
         if self.__dict__.get('topo', None) is not None:
+            if value is None:
+                # like every other attribute: assigning None unsets
+                self.unset_property('image_ref')
+                return
             imtype = self.get_property('image_type')
             # image ref and type have fate-sharing - neither can be null to be written into a graph
             self.set_properties(image_ref=value, image_type=imtype)
